@@ -1990,6 +1990,9 @@ EB_API EbErrorType svt_av1_enc_deinit_handle(
     EbComponentType  *svt_enc_component)
 {
     if (svt_enc_component) {
+        // The handle destructor joins the pipeline threads: make sure they have been told to quit even when the
+        // application did not call svt_av1_enc_deinit() first (shutting a FIFO down twice is harmless).
+        svt_av1_enc_deinit(svt_enc_component);
         EbErrorType return_error = svt_av1_enc_component_de_init(svt_enc_component);
 
         free(svt_enc_component);
